@@ -175,23 +175,28 @@ class Lib:
         from ad_afqmc import propagation, sr
         self.jax, self.jnp, self.sr, self.propagation = jax, jnp, sr, propagation
         self.pat_up = (np.arange(NORB * NUP).reshape(NORB, NUP) / 64.0).astype(np.complex128)
-        self.pat_dn = (np.arange(NORB * NDN).reshape(NORB, NDN) / 32.0).astype(np.complex128)
+        # the down block has NDN columns for odd population sizes and NUP columns (n_up == n_dn, the closed-shell
+        # unrestricted case: up and down blocks of identical shape and dtype) for even ones
+        self._pat_dn = {k: (np.arange(NORB * k).reshape(NORB, k) / 32.0).astype(np.complex128) for k in (NDN, NUP)}
         self._tags = {}
         self._jtags = {}
         self._props = {}
+
+    def pat_dn(self, n):
+        return self._pat_dn[NUP if n % 2 == 0 else NDN]
 
     def tags(self, n):
         """walker i (0-based) = (i+1) + pattern (up), (i+1+100) + pattern (down): sel is read off the output"""
         if n not in self._tags:
             idx = np.arange(1, n + 1, dtype=np.float64)[:, None, None]
             self._tags[n] = ((idx + self.pat_up[None]).astype(np.complex128),
-                             (idx + DN_OFFSET + self.pat_dn[None]).astype(np.complex128))
+                             (idx + DN_OFFSET + self.pat_dn(n)[None]).astype(np.complex128))
         return self._tags[n]
 
     def decode(self, block, dn, n):
         """selection vector (1-based, 0 = not a copy of any input walker) from an output block"""
         b = np.asarray(block)
-        pat, off = (self.pat_dn, DN_OFFSET) if dn else (self.pat_up, 0)
+        pat, off = (self.pat_dn(n), DN_OFFSET) if dn else (self.pat_up, 0)
         if b.ndim != 3 or b.shape[1:] != pat.shape:
             return [0] * (b.shape[0] if b.ndim >= 1 else 0)
         v = b - pat[None]
